@@ -43,10 +43,10 @@ def _sym_class(s) -> str:
     return s.kind
 
 
-def rule_order(ctx: Ctx):
+def rule_order(ctx: Ctx, order: str = "C02.order", view: str = "C02.view", internal: str = "C02.internal"):
     """C02.order + C02.internal"""
     rep, k = ctx.rep, ctx.k
-    rep.floor("C02.order", "engines", len(k.engines), 2)
+    rep.floor(order, "engines", len(k.engines), 2)
     for eng in k.engines:
         fn, tp, aps = activate_paths(ctx, eng)
         kind = engine_kind(ctx, eng)
@@ -64,42 +64,42 @@ def rule_order(ctx: Ctx):
                     continue
                 gc = s.gc
                 if gc.group == "?":
-                    rep.unrecognised("C02.order", s.ev.loc(), f"group call with unrecognised key {show(s.ev.term)}")
+                    rep.unrecognised(order, s.ev.loc(), f"group call with unrecognised key {show(s.ev.term)}")
                 exp_owner = tp + OWNER_OF[gc.group]
                 if gc.owner != exp_owner:
-                    rep.violation("C02.order", s.ev.loc(), f"{gc.group} group is looked up on `{gc.owner}`, expected `{exp_owner}`",
+                    rep.violation(order, s.ev.loc(), f"{gc.group} group is looked up on `{gc.owner}`, expected `{exp_owner}`",
                                   construct, norm_stmt(s.ev.node), valuation=val)
                     bad = True
                 if gc.mode != MODE_OF[gc.group]:
-                    rep.violation("C02.order", s.ev.loc(), f"{gc.group} group executed with `{gc.method}` ({gc.mode}), expected {MODE_OF[gc.group]}",
+                    rep.violation(order, s.ev.loc(), f"{gc.group} group executed with `{gc.method}` ({gc.mode}), expected {MODE_OF[gc.group]}",
                                   construct, norm_stmt(s.ev.node), valuation=val)
                     bad = True
                 if kind == "async" and not (gc.is_async and gc.awaited):
-                    rep.violation("C02.order", s.ev.loc(), f"{gc.group} group not awaited on the async engine ({gc.method}, awaited={gc.awaited})",
+                    rep.violation(order, s.ev.loc(), f"{gc.group} group not awaited on the async engine ({gc.method}, awaited={gc.awaited})",
                                   construct, norm_stmt(s.ev.node), valuation=val)
                     bad = True
                 if kind == "sync" and gc.is_async:
-                    rep.violation("C02.order", s.ev.loc(), f"{gc.group} group uses async executor `{gc.method}` on the sync engine",
+                    rep.violation(order, s.ev.loc(), f"{gc.group} group uses async executor `{gc.method}` on the sync engine",
                                   construct, norm_stmt(s.ev.node), valuation=val)
                     bad = True
             if bad:
                 continue
             if ap.executing is None:
                 if ap.path.kind == "raise":
-                    rep.violation("C02.order", where, f"`_activate` raises {show(ap.path.value)} by itself", construct,
+                    rep.violation(order, where, f"`_activate` raises {show(ap.path.value)} by itself", construct,
                                   show(ap.path.value), trace=names)
                 else:
-                    rep.unrecognised("C02.order", where, f"return value {show(ap.ret)} is not (executed, result)")
+                    rep.unrecognised(order, where, f"return value {show(ap.ret)} is not (executed, result)")
                 continue
             if not ap.executing:
                 expect = ["VALIDATOR", "COND", "RET"]
                 ok = classes == expect
-                rep.check(ok, "C02.order", where, f"{eng.name}: rejected candidate runs validators, cond and nothing else",
+                rep.check(ok, order, where, f"{eng.name}: rejected candidate runs validators, cond and nothing else",
                           construct, "rejecting path: " + " ".join(names), valuation=val, trace=names)
                 continue
             n_exec += 1
             if ap.cond_pol is not True:
-                rep.violation("C02.order", where, f"{eng.name}: actions run on a path that never required the guards to hold "
+                rep.violation(order, where, f"{eng.name}: actions run on a path that never required the guards to hold "
                               "(a rejected candidate would run its actions)", construct,
                               "executing path without a positive test of the COND result", trace=names)
             # ---- executing path: expected sequence from the valuation
@@ -108,39 +108,39 @@ def rule_order(ctx: Ctx):
             expect = ["VALIDATOR", "COND", "BEFORE"] + (["EXIT"] if want_exit else []) + ["ON", "WRITE", "VIEW", "VIEW"] + (
                 ["ENTER"] if want_enter else []) + ["AFTER", "RET"]
             if classes == expect:
-                rep.ok("C02.order", where, f"{eng.name}: executing path follows the documented group order",
+                rep.ok(order, where, f"{eng.name}: executing path follows the documented group order",
                        valuation=val, trace=names)
             else:
                 # distinguish an ordering problem from an internal-flag problem
                 present = [c for c in classes if c in ("EXIT", "ENTER")]
                 core_got = [c for c in classes if c not in ("EXIT", "ENTER")]
                 core_exp = [c for c in expect if c not in ("EXIT", "ENTER")]
-                rule = "C02.order"
+                rule = order
                 what = f"{eng.name}: group/WRITE sequence deviates from the documented order"
                 if core_got == core_exp and _is_subsequence(classes, ["VALIDATOR", "COND", "BEFORE", "EXIT", "ON", "WRITE", "VIEW", "VIEW", "ENTER", "AFTER", "RET"]):
-                    rule = "C02.internal"
+                    rule = internal
                     what = (f"{eng.name}: exit/enter presence {present} does not match internal={ap.internal}, "
                             f"source_present={ap.src_present}")
                 rep.violation(rule, where, what, construct, "executing path: " + " ".join(classes),
                               valuation=val, expected=expect, trace=names)
             if ap.internal is None:
-                rep.violation("C02.internal", where, f"{eng.name}: an executing path never tests `{tp}.internal`",
+                rep.violation(internal, where, f"{eng.name}: an executing path never tests `{tp}.internal`",
                               construct, "executing path without internal test", trace=names)
             # ---- WRITE / VIEW values
             for s in ap.syms:
                 if s.kind in ("WRITE", "VIEW"):
                     v = xshow(s.value, ap.path.events)
-                    rep.check(v == f"{tp}.target", "C02.view" if s.kind == "VIEW" else "C02.order", s.ev.loc(),
+                    rep.check(v == f"{tp}.target", view if s.kind == "VIEW" else order, s.ev.loc(),
                               f"{eng.name}: {s.name.split('(')[0]} assigns the transition's target", construct,
                               norm_stmt(s.ev.node), value=v)
-        rep.floor("C02.order", f"executing paths of {eng.name}._activate", n_exec, 2)
+        rep.floor(order, f"executing paths of {eng.name}._activate", n_exec, 2)
         # ---- any other condition must not change the group sequence
         by_val = {}
         for ap in aps:
             if ap.executing:
                 by_val.setdefault((ap.internal, ap.src_present), set()).add(tuple(_sym_class(s) for s in ap.syms))
         for v, seqs in by_val.items():
-            rep.check(len(seqs) == 1, "C02.internal", fn.loc(),
+            rep.check(len(seqs) == 1, internal, fn.loc(),
                       f"{eng.name}: nothing but internal/source conditions a group (valuation internal={v[0]}, source_present={v[1]})",
                       fn.key, "group sequence depends on another condition", sequences=[list(s) for s in seqs])
 
@@ -150,7 +150,7 @@ def _is_subsequence(seq: List[str], full: List[str]) -> bool:
     return all(any(x == y for y in it) for x in seq)
 
 
-def rule_view(ctx: Ctx):
+def rule_view(ctx: Ctx, rule: str = "C02.view"):
     """C02.view: what callbacks see as state/source/target, and that the kwargs dict updated after the
     write is the one passed to enter/after."""
     rep, k = ctx.rep, ctx.k
@@ -165,13 +165,13 @@ def rule_view(ctx: Ctx):
             # the EventData object
             ed_calls = [e for e in evs if e.kind == "call" and e.x["callee"] and "ctor:EventData" in e.x["callee"].tags]
             if len(ed_calls) != 1:
-                rep.unrecognised("C02.view", fn.loc(), f"expected one EventData construction, found {len(ed_calls)}")
+                rep.unrecognised(rule, fn.loc(), f"expected one EventData construction, found {len(ed_calls)}")
             ed = ed_calls[0]
             kws = {kw.arg: show(kw.value) for kw in ed.term.keywords}
             pos = [show(a) for a in ed.term.args]
             ok = (kws.get("transition") == tp or (len(pos) > 1 and pos[1] == tp)) and (
                 kws.get("trigger_data") == trg or (pos and pos[0] == trg))
-            rep.check(ok, "C02.view", ed.loc(), f"{eng.name}: EventData is built from this trigger and this transition",
+            rep.check(ok, rule, ed.loc(), f"{eng.name}: EventData is built from this trigger and this transition",
                       fn.key, norm_stmt(ed.node), args=pos, kwargs=kws)
             # same *args / **kwargs objects for every group call, derived from the EventData
             stars, dstars = set(), set()
@@ -189,19 +189,19 @@ def rule_view(ctx: Ctx):
             dstar_src = xshow(dstar_t, evs) if ok else "?"
             ed_txt = show(expand(ast.Name(id=f"$c{ed.idx}", ctx=ast.Load()), evs))
             ok = ok and star_src == f"{ed_txt}.args" and dstar_src == f"{ed_txt}.extended_kwargs"
-            rep.check(ok, "C02.view", fn.loc(),
+            rep.check(ok, rule, fn.loc(),
                       f"{eng.name}: every group receives the event's args and one shared extended_kwargs mapping",
                       fn.key, "group call arguments", star=sorted(stars), dstar=sorted(dstars), star_src=star_src, dstar_src=dstar_src)
             # the view updates touch that same mapping / EventData and sit between ON and ENTER (checked by order)
             for s in ap.syms:
                 if s.kind == "VIEW" and s.name.startswith("VIEW[kwargs"):
                     base = show(s.ev.term.value)
-                    rep.check(base == dstar_name, "C02.view", s.ev.loc(),
+                    rep.check(base == dstar_name, rule, s.ev.loc(),
                               f"{eng.name}: the refreshed `state` entry is in the mapping passed to enter/after", fn.key,
                               norm_stmt(s.ev.node), updated=base, passed=dstar_name)
                 if s.kind == "VIEW" and s.name.startswith("VIEW[event_data"):
                     base = show(s.ev.term.value)
-                    rep.check(base == f"$c{ed.idx}", "C02.view", s.ev.loc(),
+                    rep.check(base == f"$c{ed.idx}", rule, s.ev.loc(),
                               f"{eng.name}: the refreshed EventData is the one built for this activation", fn.key,
                               norm_stmt(s.ev.node), updated=base)
     # EventData.__post_init__ and extended_kwargs
@@ -211,7 +211,7 @@ def rule_view(ctx: Ctx):
         got = {e.x["attr"]: xshow(e.x["value"], p.events) for e in p.events
                if e.kind == "store" and isinstance(e.term.value, ast.Name) and e.term.value.id == "self"}
         for f, w in want.items():
-            rep.check(got.get(f) == w, "C02.view", post.loc(), f"EventData.{f} starts as {w.split('.', 1)[1]}", post.key,
+            rep.check(got.get(f) == w, rule, post.loc(), f"EventData.{f} starts as {w.split('.', 1)[1]}", post.key,
                       f"self.{f} = {got.get(f)}", got=got.get(f))
     ek = ctx.p.find_fn("EventData.extended_kwargs")
     if ek is None:
@@ -232,7 +232,7 @@ def rule_view(ctx: Ctx):
             g = got.get(key)
             okv = g == w or (key in ("machine",) and g == "self.machine") or (key == "event" and g == "self.event") or \
                 (key == "args" and g == "self.args")
-            rep.check(bool(okv), "C02.view", ek.loc(), f"extended_kwargs['{key}'] is the event's own {key}", ek.key,
+            rep.check(bool(okv), rule, ek.loc(), f"extended_kwargs['{key}'] is the event's own {key}", ek.key,
                       f"kwargs['{key}'] = {g}", got=g, expected=w)
 
 
